@@ -413,13 +413,13 @@ impl Engine for Hist {
         let min = d.min_size();
         let es = elem_size(&d);
         // buffer lengths: each single length from MIN_SIZE up to room for a few elements / items
-        let span = if thorough { (4 * es + a).min(48) } else { (2 * es + a).min(20) };
+        let span = if thorough { (3 * es + a).min(32) } else { (2 * es + a).min(20) };
         let mut lens: Vec<usize> = (min..=min + span).collect();
         if !thorough {
             // quick: every length in the first alignment period, then aligned steps only
             lens.retain(|n| *n <= min + a || (*n - min) % a == 0);
         }
-        let cap_states = if thorough { 2_000_000 } else { 40_000 };
+        let cap_states = if thorough { 400_000 } else { 40_000 };
         let sink = Arc::new(Mutex::new(m));
         let mut total_states = 0u64;
         let mut closed = 0u64;
